@@ -247,4 +247,31 @@ example : decode (encode 240) = .ok 240 1 ∧ decode (encode 2287) = .ok 2287 2 
     decode (encode 4294967295) = .ok 4294967295 5 ∧
     decode (encode 18446744073709551615) = .ok 18446744073709551615 9 := by decide
 
+/-- decode `n` varints laid end to end (how record headers and cells are read) -/
+def decodeMany : Nat → List Nat → Option (List Nat)
+  | 0, _ => some []
+  | n + 1, buf =>
+    match decode buf with
+    | .ok v k => (decodeMany n (buf.drop k)).map (v :: ·)
+    | _ => none
+
+/-- STREAM ROUND TRIP: any sequence of u64 values encoded back to back (followed by anything)
+decodes, value after value, to exactly that sequence — each decode stops exactly where the next
+encoding starts -/
+theorem decode_stream (vs : List Nat) (h : ∀ v ∈ vs, v < 2 ^ 64) (rest : List Nat) :
+    decodeMany vs.length (vs.flatMap encode ++ rest) = some vs := by
+  induction vs with
+  | nil => rfl
+  | cons v vs ih =>
+    have hv : v < 2 ^ 64 := h v (by simp)
+    have ih' := ih (fun x hx => h x (by simp [hx]))
+    simp only [List.flatMap_cons, List.length_cons, decodeMany, List.append_assoc]
+    rw [decode_encode v hv]
+    simp only
+    rw [← encode_length v, List.drop_left, ih']
+    rfl
+
+example : decodeMany 3 ([5, 70000, 2 ^ 63].flatMap encode ++ [1, 2]) = some [5, 70000, 2 ^ 63] :=
+  decode_stream [5, 70000, 2 ^ 63] (by decide) [1, 2]
+
 end TurVerif.C27
